@@ -1,9 +1,38 @@
 (* C11 - SEI payload parsers (buffering period, pic timing, T.35) recover encoded values.
-   Status: T.35 and totality are proved; the Annex D round trips of buffering_period / pic_timing are
-   proved as far as stated below and otherwise carried by the correspondence check (all VUI shapes). *)
-From H264 Require Import Base.Prelude Model.BitReader Model.Sps Model.Context Model.Pps Model.Sei Model.SeiTables
-     Proofs.TablesLib Gen.ImplTables Proofs.Tables Proofs.SeiProofs Proofs.SpsInv Proofs.PpsInv.
+   enc_bp / enc_pt (Spec/SyntaxSei.v) are D.1.2 / D.1.3 written as encoders relative to the SPS whose VUI
+   selects presences and widths; wf_bp / wf_pt the conditions for a conforming payload.  Proved: both round
+   trips for every accepted SPS, T.35, totality. *)
+From H264 Require Import Base.Prelude Base.Bits Model.BitReader Model.Sps Model.Context Model.Pps Model.Sei Model.SeiTables
+     Spec.SyntaxSps Spec.SyntaxSei
+     Proofs.TablesLib Gen.ImplTables Proofs.Tables Proofs.SeiProofs Proofs.SpsInv Proofs.PpsInv Proofs.SeiRoundtrip.
 Local Open Scope N_scope.
+
+(* buffering_period: for every context of accepted SPS and every payload whose bits are the encoding of a
+   conforming structure (one delay pair per CPB for each HRD present, of the width that HRD declares)
+   followed by the SEI payload alignment, parsing returns exactly that structure *)
+Theorem C11_bp_roundtrip : forall c sp b payload pad,
+  ctx_sps_ok c -> sps_by_id c (seq_parameter_set_id sp) = Some sp -> wf_bp sp b ->
+  bits_of_bytes payload = enc_bp sp b ++ pad -> sei_pad_ok pad ->
+  buffering_period_read c payload = OK b.
+Proof. exact bp_roundtrip. Qed.
+Print Assumptions C11_bp_roundtrip.
+
+(* pic_timing: CPB/DPB delays whenever either HRD is present, with the widths of the NAL HRD if present and
+   else of the VCL HRD; pic_struct and exactly NumClockTS optional clock timestamps with every optional
+   part (full or flagged seconds/minutes/hours) and a signed time offset of the declared width *)
+Theorem C11_pt_roundtrip : forall sp t fulls payload pad,
+  inv_sps sp -> wf_pt sp t fulls ->
+  bits_of_bytes payload = enc_pt sp t fulls ++ pad -> sei_pad_ok pad ->
+  pic_timing_read sp payload = OK t.
+Proof. exact pt_roundtrip. Qed.
+Print Assumptions C11_pt_roundtrip.
+
+(* the signed time offset: two's complement on the declared width *)
+Theorem C11_time_offset_signed : forall tol z, 0 < tol ->
+  (- 2 ^ (Z.of_N tol - 1) <= z < 2 ^ (Z.of_N tol - 1))%Z ->
+  sign_extend tol (Z.to_N (z mod 2 ^ Z.of_N tol)) = z /\ Z.to_N (z mod 2 ^ Z.of_N tol) < 2 ^ tol.
+Proof. exact sign_extend_roundtrip. Qed.
+Print Assumptions C11_time_offset_signed.
 
 (* T.35: the country code (or 0xFF + extension byte) is returned and the remaining payload starts
    immediately after it *)
@@ -37,3 +66,31 @@ Theorem C11_total : forall c sp payload, ctx_sps_ok c ->
   no_abort (buffering_period_read c payload) /\ no_abort (pic_timing_read sp payload).
 Proof. intros c sp payload Hc. split; [apply bp_total; exact Hc|apply pt_total]. Qed.
 Print Assumptions C11_total.
+
+(* non-vacuity: an SPS with a VCL HRD only (2 CPBs, 5-bit initial delays, 9-bit CPB / 3-bit DPB delays,
+   time_offset_length 5) and pic_struct_present; a pic_timing with pic_struct 3 (two clock timestamps: one
+   with flagged seconds+minutes and a negative offset, one absent), 7 alignment bits *)
+Example C11_ex :
+  let hrd := mk_hrd 1 2 [mk_cpb 100 200 true; mk_cpb 7 0 false] 4 8 2 5 in
+  let vui := mk_vui None OvUnspecified None None None None (Some hrd) (Some false) true None in
+  let sp := mk_sps 66 0 30 0 chroma_info_default 4 PocTypeTwo 1 false 10 8 Frames true None (Some vui) in
+  let c := mk_ct 1 true 4 false true 29 (SmhSM 59 7) (Some (-16)%Z) in
+  let t := mk_pt (Some (300, 5)) (Some (3, [Some c; None])) in
+  let b := mk_bp None (Some [(17, 31); (0, 1)]) in
+  wf_pt sp t [false; false] /\ wf_bp sp b /\
+  exists payload pad, bits_of_bytes payload = enc_pt sp t [false; false] ++ pad /\ sei_pad_ok pad /\
+                      pic_timing_read sp payload = OK t.
+Proof.
+  cbv zeta. split; [|split].
+  - unfold wf_pt. cbn -[N.lt N.le Z.le Z.lt N.pow Z.pow]. split.
+    + split; [change (2 ^ (8 + 1)) with 512|change (2 ^ (2 + 1)) with 8]; lia.
+    + eexists _, _. split; [reflexivity|]. split; [lia|]. split; [reflexivity|]. split; [reflexivity|].
+      constructor; [|constructor; [exact I|constructor]].
+      unfold wf_ct. cbn -[N.lt N.le Z.le Z.lt N.pow Z.pow].
+      repeat match goal with |- _ /\ _ => apply conj end; try lia; try reflexivity;
+        try (change (2 ^ (5 - 1))%Z with 16%Z; lia).
+  - unfold wf_bp. cbn -[N.lt N.le Z.le Z.lt N.pow]. split; [exact I|]. split; [reflexivity|].
+    change (2 ^ (4 + 1)) with 32. repeat constructor; cbn [fst snd]; lia.
+  - exists [150; 83; 178; 17; 223; 113; 208; 64], [true; false; false; false; false; false; false]. split; [vm_compute; reflexivity|].
+    split; [right; exists 6%nat; reflexivity|vm_compute; reflexivity].
+Qed.
